@@ -676,6 +676,7 @@ int config_read_file(config_t *config, const char *filename)
 int config_write_file(config_t *config, const char *filename)
 {
   FILE *stream;
+  int ok;
 
   __config_reset_error(config);
 
@@ -689,23 +690,32 @@ int config_write_file(config_t *config, const char *filename)
 
   config_write(config, stream);
 
-  if(config_get_option(config, CONFIG_OPTION_FSYNC))
+  ok = !ferror(stream);
+
+  if(ok && config_get_option(config, CONFIG_OPTION_FSYNC))
   {
     int fd = posix_fileno(stream);
 
-    if(fd >= 0)
+    /* Data still buffered by stdio must reach the file before fsync(). */
+    if(fflush(stream) != 0)
+      ok = 0;
+    else if(fd >= 0)
     {
       if(posix_fsync(fd) != 0)
-      {
-        fclose(stream);
-        config->error_text = __io_error;
-        config->error_type = CONFIG_ERR_FILE_IO;
-        return(CONFIG_FALSE);
-      }
+        ok = 0;
     }
   }
 
-  fclose(stream);
+  if(fclose(stream) != 0)
+    ok = 0;
+
+  if(!ok)
+  {
+    config->error_text = __io_error;
+    config->error_type = CONFIG_ERR_FILE_IO;
+    return(CONFIG_FALSE);
+  }
+
   config->error_type = CONFIG_ERR_NONE;
   return(CONFIG_TRUE);
 }
